@@ -298,15 +298,46 @@ func c08Child(mode, spec, out string) int {
 
 type c08Pkg struct {
 	Alias   string
-	Path    string   // import path ("" for main)
-	Imports []string // aliases, sorted
-	NLines  int      // instructions of the package's init block (solo compilation)
-	NAnon   int      // anonymous values defined there
+	Path    string            // import path ("" for main)
+	Imports []string          // aliases, sorted
+	Targets map[string]string // alias -> import path
+	NLines  int               // instructions of the package's init block (solo compilation)
+	NAnon   int               // anonymous values defined there
 }
 
+// The compiler's package table is keyed by alias, the package directory by import path: two
+// different paths may share an alias (base name).  Pkgs is keyed by path ("" = main).
 type c08Graph struct {
 	Pkgs  map[string]*c08Pkg
-	Order []string // aliases sorted; "main" included
+	Order []string // distinct aliases sorted; "main" included
+	Paths []string // paths sorted; "" (main) first
+}
+
+func (g *c08Graph) pathID(path string) int {
+	for i, a := range g.Paths {
+		if a == path {
+			return i + 1
+		}
+	}
+	return 0
+}
+
+// clashes: number of aliases bound to more than one path
+func (g *c08Graph) clashes() int {
+	byAlias := map[string]map[string]bool{}
+	for _, p := range g.Pkgs {
+		if byAlias[p.Alias] == nil {
+			byAlias[p.Alias] = map[string]bool{}
+		}
+		byAlias[p.Alias][p.Path] = true
+	}
+	n := 0
+	for _, m := range byAlias {
+		if len(m) > 1 {
+			n++
+		}
+	}
+	return n
 }
 
 func (g *c08Graph) id(alias string) int {
@@ -391,21 +422,16 @@ func (c *c08State) graphOf(p *c08Prog) (*c08Graph, error) {
 	if err != nil {
 		return nil, err
 	}
-	mainPkg := &c08Pkg{Alias: "main"}
-	g.Pkgs["main"] = mainPkg
+	mainPkg := &c08Pkg{Alias: "main", Targets: map[string]string{}}
+	g.Pkgs[""] = mainPkg
 	type todo struct{ alias, path string }
 	var work []todo
 	add := func(pk *c08Pkg, imps map[string]string) {
 		for a, n := range imps {
-			dup := false
-			for _, x := range pk.Imports {
-				if x == a {
-					dup = true
-				}
-			}
-			if !dup {
+			if _, dup := pk.Targets[a]; !dup {
 				pk.Imports = append(pk.Imports, a)
 			}
+			pk.Targets[a] = n
 			work = append(work, todo{a, n})
 		}
 		sort.Strings(pk.Imports)
@@ -414,11 +440,11 @@ func (c *c08State) graphOf(p *c08Prog) (*c08Graph, error) {
 	for len(work) > 0 {
 		t := work[len(work)-1]
 		work = work[:len(work)-1]
-		if _, ok := g.Pkgs[t.alias]; ok {
+		if _, ok := g.Pkgs[t.path]; ok {
 			continue
 		}
-		pk := &c08Pkg{Alias: t.alias, Path: t.path}
-		g.Pkgs[t.alias] = pk
+		pk := &c08Pkg{Alias: t.alias, Path: t.path, Targets: map[string]string{}}
+		g.Pkgs[t.path] = pk
 		dir := c08PkgDir(t.path, p.PkgPath)
 		if dir == "" {
 			return nil, fmt.Errorf("package %s not found", t.path)
@@ -435,16 +461,22 @@ func (c *c08State) graphOf(p *c08Prog) (*c08Graph, error) {
 			add(pk, im)
 		}
 	}
-	for a := range g.Pkgs {
-		g.Order = append(g.Order, a)
+	seenAlias := map[string]bool{}
+	for path, pk := range g.Pkgs {
+		g.Paths = append(g.Paths, path)
+		if !seenAlias[pk.Alias] {
+			seenAlias[pk.Alias] = true
+			g.Order = append(g.Order, pk.Alias)
+		}
 	}
 	sort.Strings(g.Order)
+	sort.Strings(g.Paths)
 	// solo measurements
-	for _, a := range g.Order {
-		if a == "main" {
+	for _, path := range g.Paths {
+		if path == "" {
 			continue
 		}
-		pk := g.Pkgs[a]
+		pk := g.Pkgs[path]
 		st, err := c.solo(pk.Alias, pk.Path, p.PkgPath)
 		if err != nil {
 			return nil, err
@@ -689,6 +721,84 @@ func (c *c08State) genProgram(rng *RNG, idx int) (*c08Prog, error) {
 	}
 	sb.WriteString(")\n\nfunc main(a, b uint8) uint8 {\n\tr := a + b\n" + uses + "\treturn r\n}\n")
 	return &c08Prog{Name: fmt.Sprintf("gen%03d-%s-%d", idx, shape, npk), Src: sb.String(), PkgPath: []string{dir}, Kind: "generated", GMW: idx%6 == 5}, nil
+}
+
+// genClashProgram: a package tree in which two DIFFERENT import paths share their base name (alias).
+// The compiler's package table is keyed by alias, so the path that is parsed first owns the alias
+// for the whole program; with the imports parsed in sorted alias order that is a function of the
+// source.  The clashing packages differ in the number of package variables (visible in the init
+// block) and in the constant their Mix function adds (visible in the circuit).
+//
+//	shape 0: main imports d1/c and m;   m imports d2/c          (main and m call c.Mix)
+//	shape 1: main imports m1 and m2;    m1 imports d1/c, m2 imports d2/c
+func (c *c08State) genClashProgram(rng *RNG, idx int) (*c08Prog, error) {
+	root := filepath.Join(c.tmp, fmt.Sprintf("clash%03d", idx))
+	pick := func(pool []string) string { return pool[rng.Intn(len(pool))] }
+	cn := pick([]string{"codec", "util", "conv", "mixer"})
+	dirs := []string{"lib", "legacy", "alt", "vendor", "old"}
+	i1 := rng.Intn(len(dirs))
+	i2 := (i1 + 1 + rng.Intn(len(dirs)-1)) % len(dirs)
+	d1, d2 := dirs[i1], dirs[i2]
+	mids := []string{"adapter", "bridge", "proto", "zeta", "wrap"}
+	j1 := rng.Intn(len(mids))
+	j2 := (j1 + 1 + rng.Intn(len(mids)-1)) % len(mids)
+	m1, m2 := mids[j1], mids[j2]
+	shape := idx % 2
+	write := func(rel, name, body string) error {
+		dir := filepath.Join(root, rel)
+		if err := os.MkdirAll(dir, 0o755); err != nil {
+			return err
+		}
+		return os.WriteFile(filepath.Join(dir, name+".mpcl"), []byte(body), 0o644)
+	}
+	clashPkg := func(nvars, k int) string {
+		var sb strings.Builder
+		sb.WriteString("// -*- go -*-\n\npackage " + cn + "\n\n")
+		for v := 0; v < nvars; v++ {
+			sb.WriteString(fmt.Sprintf("var T%d = []byte{%d, %d, %d}\n", v, k+v, k+v+1, k+v+2))
+		}
+		sb.WriteString(fmt.Sprintf("\nfunc Mix(a uint8) uint8 {\n\treturn a + T0[1] + %d\n}\n", k))
+		return sb.String()
+	}
+	nv1 := rng.Range(1, 2)
+	nv2 := nv1 + rng.Range(1, 2)
+	if rng.Bool() {
+		nv1, nv2 = nv2, nv1
+	}
+	if err := write(filepath.Join(d1, cn), cn, clashPkg(nv1, rng.Range(1, 40))); err != nil {
+		return nil, err
+	}
+	if err := write(filepath.Join(d2, cn), cn, clashPkg(nv2, rng.Range(50, 90))); err != nil {
+		return nil, err
+	}
+	midPkg := func(name, imp string, withVar bool) string {
+		var sb strings.Builder
+		sb.WriteString("// -*- go -*-\n\npackage " + name + "\n\nimport (\n\t\"" + imp + "\"\n)\n\n")
+		if withVar {
+			sb.WriteString(fmt.Sprintf("var W = []byte{%d, %d}\n\n", rng.Intn(200), rng.Intn(200)))
+		}
+		sb.WriteString("func Wrap(a uint8) uint8 {\n\treturn " + cn + ".Mix(a) + 1\n}\n")
+		return sb.String()
+	}
+	var src strings.Builder
+	src.WriteString("package main\n\nimport (\n")
+	if shape == 0 {
+		if err := write(m1, m1, midPkg(m1, d2+"/"+cn, rng.Bool())); err != nil {
+			return nil, err
+		}
+		src.WriteString("\t\"" + d1 + "/" + cn + "\"\n\t\"" + m1 + "\"\n)\n\nfunc main(a, b uint8) uint8 {\n\tr := a + b\n")
+		src.WriteString("\tr = " + cn + ".Mix(r)\n\tr = " + m1 + ".Wrap(r)\n\treturn r\n}\n")
+	} else {
+		if err := write(m1, m1, midPkg(m1, d1+"/"+cn, rng.Bool())); err != nil {
+			return nil, err
+		}
+		if err := write(m2, m2, midPkg(m2, d2+"/"+cn, rng.Bool())); err != nil {
+			return nil, err
+		}
+		src.WriteString("\t\"" + m1 + "\"\n\t\"" + m2 + "\"\n)\n\nfunc main(a, b uint8) uint8 {\n\tr := a + b\n")
+		src.WriteString("\tr = " + m1 + ".Wrap(r)\n\tr = " + m2 + ".Wrap(r)\n\treturn r\n}\n")
+	}
+	return &c08Prog{Name: fmt.Sprintf("clash%03d-shape%d-%s", idx, shape, cn), Src: src.String(), PkgPath: []string{root}, Kind: "alias-clash"}, nil
 }
 
 // programs importing several packages of /repo/pkg
@@ -1003,6 +1113,15 @@ func runC08(c *Ctx) error {
 		corpus = append(corpus, p)
 	}
 
+	nclash := c.N(8, 40)
+	for i := 0; i < nclash; i++ {
+		p, err := st.genClashProgram(grng.Fork(), i)
+		if err != nil {
+			return err
+		}
+		corpus = append(corpus, p)
+	}
+
 	// an unrelated program compiled between runs (history)
 	unrelated := []*c08Prog{
 		{Name: "unrelated-1", Src: "package main\n\nimport (\n\t\"encoding/hex\"\n)\n\nfunc main(a, b uint16) uint16 {\n\treturn a * b + uint16(hex.Digits[3])\n}\n"},
@@ -1055,7 +1174,7 @@ func runC08(c *Ctx) error {
 				// main's own package block (package-level variables of the program itself)
 				for _, b := range c08Blocks(first.ssaText) {
 					if b.Alias == "main" {
-						g.Pkgs["main"].NLines, g.Pkgs["main"].NAnon = b.NLines, b.NAnon
+						g.Pkgs[""].NLines, g.Pkgs[""].NAnon = b.NLines, b.NAnon
 					}
 				}
 			}
@@ -1199,6 +1318,9 @@ func runC08(c *Ctx) error {
 		}
 		c.Hist(fmt.Sprintf("distinct-outputs:%d", len(distinct)))
 		if r.g != nil {
+			if r.g.clashes() > 0 {
+				c.Hist(fmt.Sprintf("alias-clashes:%d", r.g.clashes()))
+			}
 			c.Hist(fmt.Sprintf("max-imports-in-one-package:%d", r.g.maxFan()))
 		}
 
@@ -1225,6 +1347,14 @@ func runC08(c *Ctx) error {
 				}
 			} else if a.Err != b.Err {
 				key = "c08:unexplained:error-differs"
+			}
+			if r.g != nil && r.g.clashes() > 0 && key == "c08:unexplained:output-differs" {
+				// two import paths share an alias: which one is parsed first decides the package the
+				// alias denotes
+				key = "c08:Compiler.parse:alias-clash-order"
+				if a.Circ != b.Circ {
+					key += ":circuit-differs"
+				}
 			}
 			var counts []int
 			for _, o := range reps {
@@ -1287,13 +1417,15 @@ func runC08(c *Ctx) error {
 		}
 		g := r.g
 		var pk []SX
-		for _, a := range g.Order {
-			q := g.Pkgs[a]
+		for _, path := range g.Paths {
+			q := g.Pkgs[path]
 			var imps []int
+			var targets []SX
 			for _, x := range q.Imports {
 				imps = append(imps, g.id(x))
+				targets = append(targets, L(I(g.id(x)), I(g.pathID(q.Targets[x]))))
 			}
-			pk = append(pk, L(I(g.id(a)), Ints(imps), I(q.NLines), I(q.NAnon)))
+			pk = append(pk, L(I(g.id(q.Alias)), Ints(imps), I(q.NLines), I(q.NAnon), I(g.pathID(path)), L(targets...)))
 		}
 		seenL := map[string]bool{}
 		var obsL []SX
@@ -1361,7 +1493,7 @@ func runC08(c *Ctx) error {
 			}
 			c.Hist(fmt.Sprintf("function-instances:%d", len(names)))
 		}
-		in := L(L(pk...), I(g.id("main")), L(obsL...), Bool(checkSingle), L(reuseL...), Ints(fids), Ints(instFresh), Ints(instReuse))
+		in := L(L(pk...), I(g.pathID("")), L(obsL...), Bool(checkSingle), L(reuseL...), Ints(fids), Ints(instFresh), Ints(instReuse))
 		members := make([]SX, len(obsL))
 		for i := range members {
 			members[i] = I(1)
